@@ -116,6 +116,8 @@ func (o op) String() string {
 		return fmt.Sprintf("WindowSize fails=%v", o.Lock)
 	case "writefault":
 		return fmt.Sprintf("next tty write fails after %d bytes", o.Seed)
+	case "suspend-resume":
+		return fmt.Sprintf("Suspend; window %dx%d (0 = unchanged, back=%v); Resume; Clear", o.W, o.H, o.Quiet)
 	}
 	return o.Kind
 }
@@ -210,7 +212,17 @@ func drawOps(t *rapid.T, maxW, maxH int, withResize bool) []op {
 		switch {
 		case k == 32 && withResize:
 			// the terminal is lent to another program and taken back
-			ops = append(ops, op{Kind: "suspend-resume"})
+			o := op{Kind: "suspend-resume"}
+			switch rapid.IntRange(0, 3).Draw(t, "srsize") {
+			case 0:
+				// the window changes size while the screen is suspended
+				o.W, o.H = rapid.IntRange(1, maxW).Draw(t, "srw"), rapid.IntRange(1, maxH).Draw(t, "srh")
+			case 1:
+				// ... and is back at the old size right after Resume
+				o.W, o.H = rapid.IntRange(1, maxW).Draw(t, "srw"), rapid.IntRange(1, maxH).Draw(t, "srh")
+				o.Quiet = true
+			}
+			ops = append(ops, o)
 		case k == 33 && withResize:
 			// the next write to the tty fails outright (0) or after a few bytes
 			ops = append(ops, op{Kind: "writefault", Seed: rapid.SampledFrom([]int{0, 0, 1, 3, 9, 20, 50}).Draw(t, "wfbytes")})
@@ -821,9 +833,34 @@ func (w *dw) appActor() {
 			w.M.Fill(o.R, o.St)
 		case "suspend-resume":
 			_ = sc.Suspend()
+			ow, oh := w.Tty.W, w.Tty.H
+			if o.W > 0 {
+				// no notification reaches a suspended screen (the size
+				// query works again: a size that cannot be queried cannot
+				// be followed)
+				w.Tty.WinSizeFail = false
+				w.Tty.Resize(o.W, o.H)
+				w.T.Resize(o.W, o.H)
+				w.T.Corrupt(o.W*17 + o.H)
+				w.Tty.Faults.Inc("resized_while_suspended")
+			}
 			if err := sc.Resume(); err != nil {
 				w.fail(w.prop+"/stall", "Resume failed: %v", err)
 				return
+			}
+			if o.W > 0 && o.Quiet {
+				w.Tty.Resize(ow, oh)
+				w.T.Resize(ow, oh)
+				w.T.Corrupt(ow*13 + oh)
+			}
+			if o.W > 0 {
+				// no notification was delivered: a Show lets the library find
+				// the size out (a complete repaint, as after a quiet resize);
+				// only then does the application draw at the new size
+				w.block++
+				sc.Show()
+				w.M.Resize(w.Tty.W, w.Tty.H)
+				w.corrupted = false
 			}
 			w.Tty.Faults.Inc("suspend_resume")
 			// as applications do, start from a blank logical screen
